@@ -234,4 +234,55 @@ PROPS = {
             sub("rule", "c08_serialize", 1200, 40000, qw=1, tw=2),
             sub("gridfmt", "c08_serialize", 1200, 40000, qw=1, tw=2),
         ]),
+    "C01": dict(
+        level="exploration",
+        rule=("rapidcheck-generated kriging configurations: 1-3D data sets with distinct locations (n<=40), 1-3 variables, NA patterns (heterotopy), measurement-error "
+              "variances, valid nested anisotropic rotated models (known means / order 0-2 drift / 1-2 external drifts / intrinsic structures), unique or moving "
+              "neighbourhood (sectors), point or block targets (unrotated and rotated grids), matLC, cross-validation; oracle: the system [Sigma X; Xt 0] is "
+              "assembled in the harness from Model::eval (plain bi-point evaluation) and the harness's own drift functions over exactly the neighbourhood samples "
+              "and solved in long double with full-pivot LU; estim, stdev^2, varz of kriging() and the residuals of krigtest().wgt/.zam (and lhs/rhs) must be within "
+              "max(1e-10, kappa(1e3 eps + 10 eta)) of the natural scale; kappa > 1e10 is inconclusive; non-trivial = a target compared over >=2 neighbours with a "
+              "drift, undefined values, several variables, a rotated anisotropy, a moving neighbourhood or a block; distinct = hash of (ndim, nvar, n-bucket, order, "
+              "nfex, neighbourhood kind, sectors, target kind, heterotopy, V, selection, rotation, structure list)"),
+        assumptions=["system layout read from the code and confirmed by probe: unknowns variable-major over the neighbourhood, undefined pairs removed, drift equations ib = ivar*nbfl + il",
+                     "the library solves with an explicit inverse: even residuals are proportional to kappa (bound max(1e-9, eps.kappa)(|A||w|+|b|))",
+                     "eta = eps.max|coordinate|/min(range): the library evaluates covariances from pre-projected coordinates, amplified by kappa like round-off",
+                     "block sigma00 = mean covariance between the regular and the randomised discretisation as documented in KrigingSystem::_blockDiscretize (same uniforms redrawn)",
+                     "singular systems are never reported by the library (NaN output): inconclusive here",
+                     "models restricted to mathematically valid structures (no PENTA, BESSELJ small nu in 3-D, COSEXP small parameter in >=2-D: recorded under C03)"],
+        subs=[
+            sub("sk", "c01_kriging", 2000, 43000, qw=1, tw=2),
+            sub("ok", "c01_kriging", 2000, 43000, qw=1, tw=2),
+            sub("uk", "c01_kriging", 2000, 43000, qw=1, tw=2),
+            sub("extdrift", "c01_kriging", 2000, 43000, qw=1, tw=2),
+            sub("cokriging", "c01_kriging", 2000, 43000, qw=1, tw=2),
+            sub("moving", "c01_kriging", 2000, 43000, qw=1, tw=2),
+            sub("block", "c01_kriging", 1200, 24000, qw=1, tw=2),
+            sub("block_rotated", "c01_kriging", 1200, 24000, qw=1, tw=2),
+            sub("verr", "c01_kriging", 2000, 43000, qw=1, tw=2),
+            sub("intrinsic", "c01_kriging", 2000, 43000, qw=1, tw=2),
+            sub("krigtest_fields", "c01_kriging", 2000, 43000, qw=1, tw=2),
+            sub("extdrift_undefined", "c01_kriging", 2000, 43000, qw=1, tw=2),
+            sub("xvalid", "c01_kriging", 2000, 43000, qw=1, tw=2),
+            sub("matlc", "c01_kriging", 2000, 43000, qw=1, tw=2),
+        ]),
+    "C02": dict(
+        level="exploration",
+        rule=("same generator as C01 with targets copied from data locations; metamorphic and exactness laws: estim = datum and stdev = 0 at a datum without measurement "
+              "error (nugget included); stdev finite, >= 0 and stdev^2 <= a-priori variance for simple kriging; universality sum_a lambda_a f_l(x_a) = f_l(x0) from "
+              "krigtest().wgt and the harness's drift functions; drift shift z' = z + sum c_l f_l => estim' = estim + sum c_l f_l(x0), stdev unchanged; linearity; "
+              "sample permutation; translation of all coordinates; kappa-scaled tolerances, kappa > 1e10 inconclusive; non-trivial = >=1 target compared over >=2 "
+              "neighbours and a coincident datum checked / c != 0 / permutation != identity / t != 0; distinct = hash as in C01 plus the transformation"),
+        assumptions=["as C01; exactness only for variables defined at the datum, without positive measurement error, datum inside the neighbourhood, external drifts defined",
+                     "no angular sectors when a target coincides with a datum (a coincident sample has no direction)",
+                     "block targets: drift shift evaluated at the block centre for order <= 1"],
+        subs=[
+            sub("exact_at_data", "c02_kriging_laws", 3200, 64000, qw=2, tw=4),
+            sub("stdev_bounds", "c02_kriging_laws", 3200, 64000, qw=2, tw=4),
+            sub("universality", "c02_kriging_laws", 3200, 64000, qw=2, tw=4),
+            sub("drift_shift", "c02_kriging_laws", 2400, 48000, qw=2, tw=4),
+            sub("linearity", "c02_kriging_laws", 1600, 32000, qw=2, tw=4),
+            sub("permutation", "c02_kriging_laws", 2400, 48000, qw=2, tw=4),
+            sub("translation", "c02_kriging_laws", 2400, 48000, qw=2, tw=4),
+        ]),
 }
